@@ -119,6 +119,7 @@ func (q *question) PipelineSend(ctx context.Context, transform []capnp.PipelineO
 		return capnp.ErrorAnswer(s.Method, disconnected("connection closed")), func() {}
 	}
 	defer q.c.tasks.Done()
+	defer verifSync(q.c, "task-done")
 	// Mark this transform as having been used for a call ASAP.
 	// q's Return could be received while q2 is being sent.
 	// Don't bother cleaning it up if the call fails because:
@@ -176,8 +177,10 @@ func (q *question) PipelineSend(ctx context.Context, transform []capnp.PipelineO
 		return capnp.ErrorAnswer(s.Method, errorf("send message: %v", err)), func() {}
 	}
 	q2.c.tasks.Add(1)
+	verifSync(q2.c, "task-add")
 	go func() {
 		defer q2.c.tasks.Done()
+		defer verifSync(q2.c, "task-done")
 		q2.handleCancel(ctx)
 	}()
 	q.c.mu.Unlock()
